@@ -18,7 +18,8 @@
 From AwVerif Require Import Base.Prelude Model.MemHeap Model.TransformHeap Model.DictHeap
   Model.ClassifyBase Model.Classify Model.ClassifyHeap
   Proofs.MemHeapBase Proofs.MemHeapCopy Proofs.MemHeapFrame
-  Proofs.TransformHeapBase Proofs.DictHeapBase Proofs.ClassifyHeapFrame.
+  Proofs.TransformHeapBase Proofs.DictHeapBase Proofs.ClassifyHeapFrame
+  Proofs.ClassifyStore Proofs.ClassifyHeapRefine.
 Local Open Scope nat_scope.
 Local Notation lookup := MemHeap.lookup.
 
@@ -138,4 +139,219 @@ Proof.
     split; [eexists; vm_compute; reflexivity|]. split; [eexists; vm_compute; reflexivity|].
     repeat split; vm_compute; reflexivity.
   - eexists. split; [vm_compute; reflexivity|]. split; vm_compute; reflexivity.
+Qed.
+
+(* ---- REFINEMENT to Model/Classify.v, for every aliasing (task B11) ----
+   Proofs/ClassifyStore.v, Proofs/ClassifyHeapRefine.v.
+
+   vd                  a listed event WITH the identity of its data dict: (value, location)
+   views h ks vds      the Events at ks read back as vds (cview = cev_at + the dict's location)
+   sequential f vds    REFERENCE SEMANTICS of an in-place pass (no heap): the events are
+                       handled in list order; each iteration reads the CURRENT content of
+                       its event's dict object, applies f and overwrites it - every event
+                       that has that object as its data shows the new content at once
+   fcat / ftag / split_dict / simplify_dict    the per-dict functions of the four transforms
+   sepd dls h          no member (nested list / dict value) of a listed data dict is itself
+                       a listed data dict
+   classes_at h cl gcl the rules' category list OBJECTS cl hold the categories gcl
+   Hypotheses are about the kinds of objects only (what is written is not also read as a
+   value); no closedness, no acyclicity, no distinctness of Events or dicts. *)
+
+(* EXACTLY what the code does, any aliasing: the heap program computes [sequential] *)
+Theorem C19_categorize_sequential : forall re h L classes gclasses p ks vds,
+  lookup h L = Some (Cell (TNode p) ks) -> views h ks vds -> classes_at h classes gclasses ->
+  sepd (map snd vds) h -> (forall c, In c (map fst classes) -> ~ In c (map snd vds)) ->
+  exists h' L' vds',
+    categorize_h re h L classes = (h', Ok L') /\
+    sequential (fcat re gclasses) vds = (vds', Ok tt) /\
+    lookup h' L' = Some (Cell (TNode EVENT_LIST) ks) /\ views h' ks vds' /\
+    clist_at h' L' = Some (map fst vds').
+Proof. exact categorize_h_sequential. Qed.
+Print Assumptions C19_categorize_sequential.
+
+Theorem C19_tag_sequential : forall re h L classes p ks vds,
+  lookup h L = Some (Cell (TNode p) ks) -> views h ks vds -> sepd (map snd vds) h ->
+  exists h' L' vds',
+    tag_h re h L classes = (h', Ok L') /\
+    sequential (ftag re classes) vds = (vds', Ok tt) /\
+    lookup h' L' = Some (Cell (TNode EVENT_LIST) ks) /\ views h' ks vds' /\
+    clist_at h' L' = Some (map fst vds').
+Proof. exact tag_h_sequential. Qed.
+Print Assumptions C19_tag_sequential.
+
+(* split_url_events: same outcome (returns / exception class) as the reference semantics;
+   the heap reached - also when raising midway - shows its state *)
+Theorem C19_split_url_sequential : forall up sw d4 h L p ks vds,
+  (forall u q, up u = Ok q -> scalar_parts sw d4 q) ->
+  lookup h L = Some (Cell (TNode p) ks) -> views h ks vds -> sepd (map snd vds) h ->
+  exists h' vds',
+    fst (split_url_events_h up sw d4 h L) = h' /\
+    fst (sequential (split_dict up sw d4) vds) = vds' /\
+    views h' ks vds' /\
+    match snd (sequential (split_dict up sw d4) vds) with
+    | Ok _ => snd (split_url_events_h up sw d4 h L) = Ok L
+    | Err c => snd (split_url_events_h up sw d4 h L) = Err c
+    | OutOfFuel => snd (split_url_events_h up sw d4 h L) = OutOfFuel
+    end.
+Proof. exact split_h_sequential. Qed.
+Print Assumptions C19_split_url_sequential.
+
+(* simplify_string = deep copy (Props/C10own.v: C10_deepcopy_memo*, the copy has exactly the
+   sharing of the original) followed by this loop on the copies *)
+Theorem C19_simplify_loop_sequential_partial : forall sp sf sd key h ks vds,
+  views h ks vds -> sepd (map snd vds) h ->
+  snd (each_h (simplify_one_h sp sf sd key) h ks) = snd (sequential (simplify_dict sp sf sd key) vds) /\
+  views (fst (each_h (simplify_one_h sp sf sd key) h ks)) ks (fst (sequential (simplify_dict sp sf sd key) vds)).
+Proof. exact simplify_loop_sequential. Qed.
+Print Assumptions C19_simplify_loop_sequential_partial.
+
+(* what [sequential] is: (1) pairwise distinct dict objects - the functional model, event by
+   event, also when it raises; (2) in general, when it goes through - f once per listed
+   occurrence of the event's dict; (3) f idempotent on the dicts concerned - the
+   functional model again *)
+Theorem C19_sequential_distinct : forall f vds, NoDup (map snd vds) ->
+  match map_res (fe f) vds with
+  | Ok vds' => sequential f vds = (vds', Ok tt)
+  | Err c => snd (sequential f vds) = Err c
+  | OutOfFuel => snd (sequential f vds) = OutOfFuel
+  end.
+Proof. exact sequential_nodup. Qed.
+Print Assumptions C19_sequential_distinct.
+
+Theorem C19_sequential_closed_form : forall f todo vds vds', consistent vds -> incl todo (map snd vds) ->
+  srun f todo vds = (vds', Ok tt) ->
+  Forall2 (fun x x' => x' = (set_cdata (fst x) (c_data (fst x')), snd x) /\
+                       iter_res (count_occ Nat.eq_dec todo (snd x)) f (c_data (fst x)) = Ok (c_data (fst x')))
+          vds vds'.
+Proof. exact srun_closed. Qed.
+Print Assumptions C19_sequential_closed_form.
+
+Theorem C19_sequential_idempotent : forall f vds vds', consistent vds ->
+  (forall x d', In x vds -> f (c_data (fst x)) = Ok d' -> f d' = Ok d') ->
+  sequential f vds = (vds', Ok tt) -> map_res (fe f) vds = Ok vds'.
+Proof. exact sequential_idempotent. Qed.
+Print Assumptions C19_sequential_idempotent.
+
+(* (1) the exact hypothesis of the functional reading: pairwise distinct data dicts *)
+Theorem C19_categorize_refines : forall re h L classes gclasses p ks vds,
+  lookup h L = Some (Cell (TNode p) ks) -> views h ks vds -> classes_at h classes gclasses ->
+  sepd (map snd vds) h -> (forall c, In c (map fst classes) -> ~ In c (map snd vds)) ->
+  NoDup (map snd vds) ->
+  exists h' L', categorize_h re h L classes = (h', Ok L') /\
+                clist_at h' L' = Some (categorize re (map fst vds) gclasses).
+Proof. exact categorize_h_refines. Qed.
+Print Assumptions C19_categorize_refines.
+
+Theorem C19_tag_refines : forall re h L classes p ks vds,
+  lookup h L = Some (Cell (TNode p) ks) -> views h ks vds -> sepd (map snd vds) h ->
+  NoDup (map snd vds) ->
+  exists h' L', tag_h re h L classes = (h', Ok L') /\
+                clist_at h' L' = Some (tag re (map fst vds) classes).
+Proof. exact tag_h_refines. Qed.
+Print Assumptions C19_tag_refines.
+
+Theorem C19_split_url_refines : forall up sw d4 h L p ks vds,
+  (forall u q, up u = Ok q -> scalar_parts sw d4 q) ->
+  lookup h L = Some (Cell (TNode p) ks) -> views h ks vds -> sepd (map snd vds) h ->
+  ~ In L (map snd vds) -> NoDup (map snd vds) ->
+  match split_url_events up sw d4 (map fst vds) with
+  | Ok out => snd (split_url_events_h up sw d4 h L) = Ok L /\
+              clist_at (fst (split_url_events_h up sw d4 h L)) L = Some out
+  | Err c => snd (split_url_events_h up sw d4 h L) = Err c
+  | OutOfFuel => snd (split_url_events_h up sw d4 h L) = OutOfFuel
+  end.
+Proof. exact split_h_refines. Qed.
+Print Assumptions C19_split_url_refines.
+
+(* (2) shared dicts: the data of an event ends up as fcat / ftag applied once per listed
+   occurrence of its dict object (the later iterations see the earlier writes) *)
+Theorem C19_categorize_shared : forall re h L classes gclasses p ks vds,
+  lookup h L = Some (Cell (TNode p) ks) -> views h ks vds -> classes_at h classes gclasses ->
+  sepd (map snd vds) h -> (forall c, In c (map fst classes) -> ~ In c (map snd vds)) ->
+  exists h' L' vds', categorize_h re h L classes = (h', Ok L') /\ clist_at h' L' = Some (map fst vds') /\
+                     Forall2 (result_of (fcat re gclasses) (map snd vds)) vds vds'.
+Proof. exact categorize_h_shared. Qed.
+Print Assumptions C19_categorize_shared.
+
+Theorem C19_tag_shared : forall re h L classes p ks vds,
+  lookup h L = Some (Cell (TNode p) ks) -> views h ks vds -> sepd (map snd vds) h ->
+  exists h' L' vds', tag_h re h L classes = (h', Ok L') /\ clist_at h' L' = Some (map fst vds') /\
+                     Forall2 (result_of (ftag re classes) (map snd vds)) vds vds'.
+Proof. exact tag_h_shared. Qed.
+Print Assumptions C19_tag_shared.
+
+(* (3) shared dicts, and no listed event carries a STRING under `$category` / `$tags` (the
+   only way an earlier write can change what a later iteration matches): the functional
+   model; split_url_events: always (its six writes do not change what it reads) *)
+Theorem C19_categorize_refines_shared : forall re h L classes gclasses p ks vds,
+  lookup h L = Some (Cell (TNode p) ks) -> views h ks vds -> classes_at h classes gclasses ->
+  sepd (map snd vds) h -> (forall c, In c (map fst classes) -> ~ In c (map snd vds)) ->
+  (forall x s, In x vds -> dget K_category (c_data (fst x)) <> Some (VStr s)) ->
+  exists h' L', categorize_h re h L classes = (h', Ok L') /\
+                clist_at h' L' = Some (categorize re (map fst vds) gclasses).
+Proof. exact categorize_h_refines_shared. Qed.
+Print Assumptions C19_categorize_refines_shared.
+
+Theorem C19_tag_refines_shared : forall re h L classes p ks vds,
+  lookup h L = Some (Cell (TNode p) ks) -> views h ks vds -> sepd (map snd vds) h ->
+  (forall x s, In x vds -> dget K_tags (c_data (fst x)) <> Some (VStr s)) ->
+  exists h' L', tag_h re h L classes = (h', Ok L') /\
+                clist_at h' L' = Some (tag re (map fst vds) classes).
+Proof. exact tag_h_refines_shared. Qed.
+Print Assumptions C19_tag_refines_shared.
+
+Theorem C19_split_url_refines_shared : forall up sw d4 h L p ks vds L',
+  (forall u q, up u = Ok q -> scalar_parts sw d4 q) ->
+  lookup h L = Some (Cell (TNode p) ks) -> views h ks vds -> sepd (map snd vds) h ->
+  ~ In L (map snd vds) ->
+  snd (split_url_events_h up sw d4 h L) = Ok L' ->
+  L' = L /\ exists out, split_url_events up sw d4 (map fst vds) = Ok out /\
+                        clist_at (fst (split_url_events_h up sw d4 h L)) L = Some out.
+Proof. exact split_h_refines_shared. Qed.
+Print Assumptions C19_split_url_refines_shared.
+
+(* ---- Non-vacuity ----
+   the hypotheses are met by ex19, whose list [a; b; a] lists one Event twice (so its
+   dict 0 occurs twice: shared), with a nested list value (cell 1) and the rule's
+   category list (cell 6) *)
+Example C19own_refine_hypotheses_met :
+  views ex19 [2; 4; 2] [(ex19_a, 0); (ex19_b, 3); (ex19_a, 0)] /\
+  sepd [0; 3; 0] ex19 /\ classes_at ex19 [(6, r9)] [([7; 8]%Z, r9)] /\
+  (forall c, In c [6] -> ~ In c [0; 3; 0]) /\ ~ In 5 [0; 3; 0] /\
+  (forall x s, In x [(ex19_a, 0); (ex19_b, 3); (ex19_a, 0)] -> dget K_category (c_data (fst x)) <> Some (VStr s)).
+Proof.
+  split; [repeat constructor; vm_compute; reflexivity|]. split.
+  { intros dl p kk l I Lk Il Id.
+    destruct I as [<-|[<-|[<-|[]]]]; vm_compute in Lk; inversion Lk; subst kk;
+      (destruct Il as [<-|[]] || destruct Il);
+      destruct Id as [E|[E|[E|[]]]]; discriminate E. }
+  split. { constructor; [|constructor]. split; [reflexivity|]. eexists. split; vm_compute; reflexivity. }
+  split. { intros c [<-|[]] [E|[E|[E|[]]]]; discriminate E. }
+  split. { intros [E|[E|[E|[]]]]; discriminate E. }
+  intros x s [<-|[<-|[<-|[]]]]; vm_compute; discriminate.
+Qed.
+
+(* the string case excluded in (3) is real: one Event listed twice (or two Events sharing the
+   dict) whose `$category` is a string that the rule matches - the first iteration replaces
+   the string by the category list, the second no longer matches and writes
+   ["Uncategorized"]; the functional model gives [7; 8] to both.  Replayed on the
+   implementation (notes/agents/THEAP3.md). *)
+Definition ex19s : heap :=
+  [ dict_cell [(K_title, ZS 12); (K_category, ZS 10)];
+    Cell (TEv None 0 1000) [0];
+    Cell (TNode EVENT_LIST) [1; 1];
+    Cell (TNode (lenc [7; 8]%Z)) [] ].
+Definition ex19s_e : cevent := mkCE None 0 1000 [(K_title, VStr 6); (K_category, VStr 5)].
+
+Example C19own_shared_string_category_differs :
+  clist_at ex19s 2 = Some [ex19s_e; ex19s_e] /\
+  (exists h', categorize_h re9 ex19s 2 [(3, r9)] = (h', Ok 6) /\
+     clist_at h' 6 = Some [set_cdata ex19s_e [(K_title, VStr 6); (K_category, VList [S_uncategorized])];
+                           set_cdata ex19s_e [(K_title, VStr 6); (K_category, VList [S_uncategorized])]]) /\
+  categorize re9 [ex19s_e; ex19s_e] [([7; 8]%Z, r9)] =
+    [set_cdata ex19s_e [(K_title, VStr 6); (K_category, VList [7; 8]%Z)];
+     set_cdata ex19s_e [(K_title, VStr 6); (K_category, VList [7; 8]%Z)]].
+Proof.
+  split; [vm_compute; reflexivity|]. split; [|vm_compute; reflexivity].
+  eexists. split; vm_compute; reflexivity.
 Qed.
